@@ -52,7 +52,7 @@ def run(pid, tier, ev=None, vd=None, finish=True):
             rng.shuffle(scheds)
             for sc in scheds[:(per_prog if prog != "casrace3" else 4000)]:
                 jobs.append({"prog": prog, "program": hr.PROGRAMS[prog], "order": [x[0] for x in sc["hist"]],
-                             "labels": sc["hist"], "want_final": sc["final"], "src": "tlc"})
+                             "labels": sc["hist"], "want_final": sc["final"], "want_replies": sc["replies"], "src": "tlc"})
             log(f"[{pid}] program {prog}: {len(scheds)} model behaviours, {min(len(scheds), per_prog)} replayed")
         # kills from the model
         r = tlc("HubSched", "MC_HubSched_putput_kill.cfg", workers=8, timeout=1500, xmx="8g")
@@ -162,7 +162,7 @@ def run(pid, tier, ev=None, vd=None, finish=True):
                 rel.append(rr)
             acc2 = validate(rel, work, "r")
             relaxed_ok = {retry[j] for j in acc2}
-        nconf = 0
+        nconf = nrep = nrep_checked = 0
         for i, rc in enumerate(recs):
             if pid == "C03" and i not in accepted:
                 key = f"{rc['prog']}-" + "".join(str(s[0]) for s in rc["sched"])[:60] + (f"-kill{rc['kill']}" if rc["kill"] else "")
@@ -205,6 +205,16 @@ def run(pid, tier, ev=None, vd=None, finish=True):
                     nconf += 1
                     if nconf <= 3:
                         vd.nonconformance(f"replayed model behaviour of {rc['prog']} ended in {rc['final']}, model says {wf}")
+                # the replay follows the behaviour step by step (by action label), so every reply has to be the model's too
+                if rc.get("want_replies") is not None:
+                    want = {i + 1: [hr.model_reply_key(m) for m in seq] for i, seq in enumerate(rc["want_replies"])}
+                    got = hr.real_reply_keys(rc)
+                    want = {k: v for k, v in want.items() if v}
+                    nrep_checked += 1
+                    if got != want:
+                        nrep += 1
+                        if nrep <= 3:
+                            vd.nonconformance(f"replayed model behaviour of {rc['prog']} (order {''.join(str(s[0]) for s in rc['sched'])}): replies {got}, model says {want}")
         if pid == "C10":
             # "a write whose streamed bytes do not match its declared hash or LENGTH changes no such path": single sessions of
             # the real server (the HubSession pieces that are such writes), alone and followed by a read
@@ -218,7 +228,9 @@ def run(pid, tier, ev=None, vd=None, finish=True):
                                  f"session {e['pieces']}: a Put whose bytes do not match its declared hash / length changed the served tree: f={e['f']} conflict-copy={e['conf']} replies={e['replies']}",
                                  {"kind": "hub-session", "record": e})
             ev.add(evaluations=len(srecs), traces_validated_against_impl=len(srecs))
-        ev.extra["conformance"] = {"replayed_model_behaviours": sum(1 for x in recs if isinstance(x.get("want_final"), dict) and not x["kill"]), "final_state_mismatches": nconf}
+        ev.extra["conformance"] = {"replayed_model_behaviours": sum(1 for x in recs if isinstance(x.get("want_final"), dict) and not x["kill"]), "final_state_mismatches": nconf,
+                                   "replies_compared": nrep_checked, "reply_mismatches": nrep,
+                                   "alignment": "by action label (server, pc) of the behaviour, not by step count"}
         ev.extra["executions"] = {"total": len(recs), "accepted_linearizable": len(accepted), "list_only_failures": len(relaxed_ok),
                                   "controller_errors": len(errs), "with_kill": sum(1 for x in recs if x["kill"]),
                                   "by_source": {s: sum(1 for j in jobs if j.get("src") == s) for s in ("tlc", "tlc-kill", "search")}}
